@@ -95,6 +95,9 @@ def gen_text(ctx, rng, corp, enc="utf-8", force_ascii=False):
         text = c["ddl"]
         if not text.endswith("\n"):
             text += "\n"
+    elif r < 0.5:
+        from vf.gen import sources
+        text = sources.any_script(rng)[1]
     else:
         s = GS.gen_mixed(rng, with_comments=0.3, with_unsupported=0.15)
         text = s["text"]
